@@ -11,7 +11,7 @@ def jobs(tier):
     out = []
     # the real Prometheus.RangeQuery under the fork-join model: slice size is (2h).Round(step)
     if tier == "quick":
-        out += [RQ(3600, 7200, 5), RQ(2700, 8100, 6)]
+        out += [RQ(3600, 7200, 5), RQ(2700, 8100, 5)]
     else:
         out += [RQ(3600, 7200, 6), RQ(2700, 8100, 7), RQ(3000, 6000, 6), RQ(2400, 7200, 7), RQ(3600, 7200, 5, gran=500), RQ(7200, 7200, 5)]
     if tier == "quick":
